@@ -89,7 +89,9 @@ def handle (f : String) (j : Json) : Option (Except String Json) :=
       pure <| ofG (fun (r, h) => Json.mkObj [("rev", num r), ("h", num h)]) (getHeightFromIterationKey k)
   | "memo.forward" => some do
       let memo := (← str j "memo").toList
-      pure <| ofG forwardJson (getPacketMetadata parseObj (memo.length + 1) (customData memo "forward".toList))
+      pure <| match getPacketMetadata parseObj (memo.length + 1) (customData memo "forward".toList) with
+        | .err e => err (if e == "metadata-key-not-found" || e == "invalid-forward-metadata" then e else "other")
+        | r => ofG forwardJson r
   | "memo.callback" => some do
       let memo := (← str j "memo").toList
       let key := (← str j "key").toList
